@@ -288,7 +288,14 @@ impl Primitive {
     pub fn as_integer_cast(&self) -> Result<i64, TransformError> {
         match self {
             Primitive::Integer(n) => Ok(*n),
-            Primitive::PositiveInteger(n) => Ok(*n as i64),
+            // beyond the signed range a plain cast would wrap to a negative value
+            Primitive::PositiveInteger(n) => {
+                i64::try_from(*n).map_err(|_| TransformError::TooLarge {
+                    message: "Integer value out of range".to_string(),
+                    got: i64::MAX,
+                    max: i64::MAX,
+                })
+            }
             Primitive::Boolean(b) => Ok(*b as u8 as i64),
             Primitive::Number(n) => {
                 if float_ne(n.fract(), 0.0) {
